@@ -372,6 +372,20 @@ theorem segmentsLoop_no_leak {σ : Type} (W : PinWorld σ) (c0 : Nat → Int) (h
       refine ⟨by simp, fun _ => ?_⟩
       exact unwind_all W c0 h0 tt _ (fun j => by rw [W.inc_fail w i hf j]; exact h j)
 
+/-- **`no_leak`**, the per-segment part in one statement: in every reachable state a thread whose
+`incRef` just failed owns exactly what it owned before; an owner's `DecRef` really releases; and when
+every thread has released everything, `refCount = 0` (so `unreferenced_reclaimable` applies:
+idle-close and retention are not blocked).  The multi-segment part is `selectLoop_no_leak` /
+`segmentsLoop_no_leak`. -/
+theorem no_leak {s : State} (h : Reachable s) :
+    (∀ (t : Nat) (th : Th), s.ts[t]? = some th → th.pc = .idle →
+      (th.res = .closedErr ∨ th.res = .initErr) → th.holds = th.base) ∧
+    (∀ (t : Nat) (th : Th) (own : Bool), s.ts[t]? = some th → th.pc = .drLoad own → own = true ∧ s.sh.rc > 0) ∧
+    ((∀ th ∈ s.ts, th.holds = 0) → s.sh.rc = 0) :=
+  ⟨fun _ _ hg hpc => (incRef_fail_no_count h hg hpc).1,
+   fun _ _ own hg hpc => (decRef_always_releases h hg).1 own hpc,
+   all_released_rc_zero h⟩
+
 /-! ## 5. `idle_reopen_transparent` -/
 
 /-- **closeIfIdle followed by incRef gives back an open segment with the same directory, flag and
